@@ -273,6 +273,11 @@ func (b *CFGBuilder) buildNestedFunction(node *parser.Node) error {
 	fullName := b.getFullScopeName(node.Name)
 	b.functionCFGs[fullName] = funcCFG
 
+	// Keep the CFGs of functions defined inside this one (their names are already fully qualified)
+	for nestedName, nestedCFG := range nestedBuilder.functionCFGs {
+		b.functionCFGs[nestedName] = nestedCFG
+	}
+
 	// Add function definition to current block
 	b.currentBlock.AddStatement(node)
 	return nil
